@@ -308,6 +308,10 @@ func (x *run) genHistory(rt *rapid.T, o histOpts) {
 		if len(live) == 0 {
 			break
 		}
+		if o.CloseScopes && rapid.IntRange(0, 11).Draw(rt, "churn") == 0 {
+			x.genChurn(rt, o, ids)
+			continue
+		}
 		k := rapid.IntRange(0, rw+4).Draw(rt, "op")
 		switch {
 		case k == 0 || k == 1: // create scope
@@ -395,6 +399,45 @@ func (x *run) genHistory(rt *rapid.T, o histOpts) {
 	}
 }
 
+// genChurn: siblings under one parent (a scope or the provider) are created and
+// closed in a generated order - not last-in-first-out - with a resolution in
+// the newcomers now and then. The tables that track scopes are edited most
+// heavily by exactly this kind of traffic.
+func (x *run) genChurn(rt *rapid.T, o histOpts, ids []kit.Ident) {
+	live := x.R.LiveScopes()
+	parent := rapid.SampledFrom(live).Draw(rt, "churnParent")
+	if x.R.Scopes[parent].Depth >= o.MaxDepth {
+		parent = 0
+	}
+	var mine []int
+	n := rapid.IntRange(4, 9).Draw(rt, "churnOps")
+	for j := 0; j < n; j++ {
+		var open []int
+		for _, t := range mine {
+			if !x.R.ScopeDead(t) {
+				open = append(open, t)
+			}
+		}
+		if len(open) >= 2 && rapid.IntRange(0, 2).Draw(rt, "churnClose") == 0 {
+			x.exec(Op{Kind: "close", Scope: rapid.SampledFrom(open).Draw(rt, "churnVictim")})
+			continue
+		}
+		before := len(x.R.Tags())
+		// contexts that do not derive from the parent's: nothing but the owner's tables closes them
+		x.exec(Op{Kind: "create", Scope: parent, Ctx: rapid.SampledFrom([]int{1, 1, 2}).Draw(rt, "churnCtx")})
+		tags := x.R.Tags()
+		if len(tags) > before {
+			t := tags[len(tags)-1]
+			if rec := x.R.Scopes[t]; rec != nil && rec.Created {
+				mine = append(mine, t)
+				if len(ids) > 0 && rapid.IntRange(0, 1).Draw(rt, "churnGet") == 0 {
+					x.exec(Op{Kind: "get", Scope: t, Ident: rapid.SampledFrom(ids).Draw(rt, "churnId")})
+				}
+			}
+		}
+	}
+}
+
 func (o histOpts) ctxKinds() []int {
 	if o.CtxKinds != nil {
 		return o.CtxKinds
@@ -440,6 +483,21 @@ func (x *run) observations() (out []seen, problems []*Failure) {
 			}
 			for i, e := range o.Entries {
 				add(e, mem[i], o.Scope, where, true, "group")
+			}
+			// what was handed out stays what it was: the slice GetGroup returned belongs to the caller
+			if o.RawGroup != nil {
+				changed := len(o.RawGroup) != len(o.Entries)
+				for i := 0; !changed && i < len(o.RawGroup); i++ {
+					changed = kit.EntryOf(o.RawGroup[i]) != o.Entries[i]
+				}
+				if changed {
+					problems = append(problems, fail("C04", "group-members", "result-changed-later", "the slice returned by %s holds other instances at the end of the run than when it was returned", where))
+					for i, v := range o.RawGroup {
+						if i < len(mem) {
+							add(kit.EntryOf(v), mem[i], o.Scope, where+" [as found in the returned slice later]", true, "group")
+						}
+					}
+				}
 			}
 			continue
 		}
